@@ -272,6 +272,8 @@ def build_units(tier: str) -> tuple[list[Unit], dict[str, str]]:
                                              "dependent Skolem width (outside the fold templates)")
                 continue
             units.append(Unit(f"{cname}/{tag}", make_harness(cname, cls, alts)))
+    for mname in client_methods():
+        units.append(Unit(f"client/{mname}", forwarding_harness(mname)))
     from .c02 import registry_sids
     for sid in registry_sids() + [None]:
         if sid == 0x2C:
@@ -294,6 +296,92 @@ def build_units(tier: str) -> tuple[list[Unit], dict[str, str]]:
         if u.setup is None:
             u.setup = uc.install
     return units, skipped
+
+
+CLIENT_INFRA = {"connect", "reconnect", "reconnect_unsafe", "_read", "request_unsafe",
+                "_tester_present", "send_raw", "request", "_request"}
+
+
+def client_methods() -> list[str]:
+    from gallia.services.uds.core.client import UDSClient
+    return sorted(n for n, f in vars(UDSClient).items()
+                  if inspect.iscoroutinefunction(f) and n not in CLIENT_INFRA)
+
+
+def forwarding_harness(mname: str):
+    """`UDSClient.<service>(…)`: exactly one request object is built, every argument of the call
+    reaches the constructor parameter of the same name unchanged (identity), none is dropped or
+    used twice, and that request goes out through `self.request` with the caller's config."""
+    def harness(I: Interp) -> None:
+        from contracts.c15 import Stub, coro
+        from gallia.services.uds.core.client import UDSClient
+        S = service_module()
+        fn = vars(UDSClient)[mname]
+        sig = inspect.signature(fn)
+        args: dict[str, V] = {}
+        for name, prm in list(sig.parameters.items())[1:]:
+            ann = str(prm.annotation)
+            if name == "config":
+                args[name] = VObj(Stub, {}, lazy=True, tag="config")
+            elif "bool" in ann:
+                args[name] = I.fresh_bool(name, inp=True)
+            elif "bytes" in ann and "int" not in ann:
+                args[name] = I.fresh_bytes(name, inp=True)
+            elif "list" in ann or "Sequence" in ann:
+                args[name] = VList([I.fresh_int(f"{name}_0", inp=True)])
+            elif "dict" in ann:
+                args[name] = VDict([])
+            else:
+                args[name] = I.fresh_int(name, inp=True)
+        built: list[tuple[type, dict[str, V]]] = []
+        installed = []
+        for cname, cls in request_classes().items():
+            def mk(I2: Interp, c: type, a: list[V], k: dict[str, V]) -> V:
+                try:
+                    b = inspect.signature(c.__init__).bind(None, *a, **k)
+                except TypeError as e:
+                    I2.fail(f"F-{mname}-calls-the-constructor-with-a-valid-signature", str(e))
+                    raise PyExc(VObj(TypeError, {"args": VTuple([])}))
+                bound = {kk: vv for kk, vv in list(b.arguments.items())[1:]}
+                built.append((c, bound))
+                return VObj(Stub, {"_cls": VConst(c)}, lazy=True, tag="request-object")
+            models.CLASS_MODELS[cls] = mk
+            installed.append(cls)
+        sent: list[tuple[V, V]] = []
+
+        def request(I2: Interp, self_: V, req: V, config: V = NONE) -> V:
+            sent.append((req, config))
+            return coro(lambda: VObj(Stub, {}, lazy=True, tag="response"))
+        I.ex.contracts[UDSClient.request] = request
+        client = VObj(UDSClient, {})
+        try:
+            I.await_v(I.call_v(I.getattr_v(client, mname), [], dict(args)))
+        except PyExc as e:
+            # a refused call (argument out of range): nothing may have been sent
+            I.prove(f"F-{mname}:a-refused-call-sends-nothing", z3.BoolVal(
+                not sent and issubclass(e.exc.cls, (ValueError, OverflowError, struct.error,
+                                                    TypeError))), e.exc.cls.__name__)
+            return
+        finally:
+            for cls in installed:
+                models.CLASS_MODELS.pop(cls, None)
+        I.prove(f"F-{mname}:one-request-is-built-and-sent",
+                z3.BoolVal(len(built) == 1 and len(sent) == 1))
+        if len(built) != 1 or len(sent) != 1:
+            return
+        cls, bound = built[0]
+        I.prove(f"F-{mname}:config-is-the-caller's", z3.BoolVal(
+            "config" not in args or sent[0][1] is args["config"]))
+        for name, v in args.items():
+            if name == "config":
+                continue
+            hits = [k for k, bv in bound.items() if bv is v]
+            if name in bound:
+                I.prove(f"F-{mname}:{name}-reaches-the-constructor-parameter-of-that-name",
+                        z3.BoolVal(bound[name] is v), f"goes to {hits}")
+            I.prove(f"F-{mname}:{name}-is-used-exactly-once", z3.BoolVal(len(hits) == 1),
+                    f"reaches {hits}")
+    return harness
 
 
 def parse_total_harness(sid: int | None, sub: int | None = None, not_sub: int | None = None,
@@ -497,9 +585,69 @@ def native_parse_total(unit: str, model: dict) -> tuple[bool, str]:
     return False, f"{len(cands)} byte strings parse and keep their bytes"
 
 
+def native_client(mname: str) -> tuple[bool, str]:
+    """Call the real client method with distinguishable arguments, capture the request object it
+    hands to request(), and compare its PDU with the request built directly from the same
+    arguments by name."""
+    import asyncio
+    import logging
+    logging.disable(logging.CRITICAL)
+    from gallia.services.uds.core.client import UDSClient
+    fn = vars(UDSClient)[mname]
+    sig = inspect.signature(fn)
+    kwargs: dict[str, Any] = {}
+    n = 0
+    for name, prm in list(sig.parameters.items())[1:]:
+        ann = str(prm.annotation)
+        n += 1
+        if name == "config":
+            continue
+        if "bool" in ann:
+            kwargs[name] = False
+        elif "bytes" in ann and "int" not in ann:
+            kwargs[name] = bytes([0xA0 + n] * n)
+        elif "list" in ann or "Sequence" in ann:
+            kwargs[name] = [n]
+        elif "dict" in ann:
+            kwargs[name] = {}
+        else:
+            kwargs[name] = n
+    if "address_and_length_format_identifier" in kwargs:
+        kwargs["address_and_length_format_identifier"] = 0x11
+    if mname == "security_access_send_key":
+        kwargs["security_access_type"] = 2
+    sent: list[Any] = []
+
+    class C(UDSClient):  # type: ignore[misc]
+        def __init__(self) -> None:
+            pass
+
+        async def request(self, request: Any, config: Any = None) -> Any:  # type: ignore[override]
+            sent.append(request)
+            return None
+    try:
+        asyncio.run(getattr(C(), mname)(**kwargs))
+    except Exception as e:  # noqa: BLE001
+        return False, f"{mname}({kwargs}) raised {type(e).__name__}: {e}"
+    if len(sent) != 1:
+        return True, f"{mname} sent {len(sent)} requests"
+    req = sent[0]
+    ctor = inspect.signature(type(req).__init__)
+    direct_kwargs = {k: v for k, v in kwargs.items() if k in ctor.parameters}
+    try:
+        direct = type(req)(**direct_kwargs)
+    except Exception as e:  # noqa: BLE001
+        return False, f"direct construction failed: {type(e).__name__}: {e}"
+    return req.pdu != direct.pdu, (
+        f"client.{mname}({kwargs}) sends {req.pdu.hex()}; {type(req).__name__}"
+        f"({direct_kwargs}) is {direct.pdu.hex()}")
+
+
 def native_replay(unit: str, obligation: str, model: dict) -> tuple[bool, str]:
     if unit.startswith("parse-total/"):
         return native_parse_total(unit, model)
+    if unit.startswith("client/"):
+        return native_client(unit.split("/", 1)[1])
     cname, alts, fixed = parse_unit(unit)
     S = service_module()
     cls = getattr(S, cname)
@@ -537,7 +685,7 @@ def random_arg(rnd: random.Random, kind: str) -> Any:
 
 
 def native_search(unit: str, obligation: str, seed: int) -> dict | None:
-    if unit.startswith("parse-total/"):
+    if unit.startswith(("parse-total/", "client/")):
         return {}
     cname, alts, fixed = parse_unit(unit)
     S = service_module()
